@@ -188,4 +188,9 @@ def families(tier):
         u = uq if q else ut
         if u:
             fams.append(sched.run_family("C13", name, topo, u, **kw))
+    if not q:
+        from .. import chsrc
+        fams.append(dict(name="crosshair:with_delay", kind="crosshair", ref="vf.chrun:replay", src=chsrc.DELAYS, params={},
+                         bounds="CrossHair on DelayFixed/DelayToPush/DelayToPull.with_delay/_pulled; all integers within 0..10^5 us (independent second encoding; inconclusive results are reported, not counted)",
+                         per_condition_timeout=60, must_cover=["ran"]))
     return fams
